@@ -26,9 +26,17 @@ LEVEL_TEXT = (
 )
 LEVEL_NOTE = (
     "Trusted: Lean kernel; hand-written model Gql/Types/SchemaValidate.lean (tied by correspondence); the "
-    "transcription of the specification Gql/Spec/TypeSystem.lean; harness. Not modelled: defaults given as "
-    "Python values (GraphQLDefaultInput(value=...)), custom scalar coercion callbacks, wrapper types in "
-    "interfaces/union-member/root positions, NonNull(NonNull(...))."
+    "transcription of the specification Gql/Spec/TypeSystem.lean; harness. Defaults given as Python values "
+    "(GraphQLDefaultInput(value=...), only constructible programmatically) are NOT in RawSchema and no theorem "
+    "covers validate_input_value / uncoerce_default_value (the 'uncoerce for a did-you-mean hint' fallback whose "
+    "exceptions validate.py swallows): they are tied by the implementation-side oracles only — validate_schema "
+    "returns a list and never raises, a second call returns the same list, graphql_sync returns exactly the schema "
+    "errors — on generated invalid values (unknown/missing keys, wrong containers and leaf kinds, None under "
+    "non-null, nested in lists/objects, unknown enum values) on arguments, input fields and directive arguments, and "
+    "on custom scalars whose parse_value/serialize raise KeyError, ValueError, ZeroDivisionError, AttributeError, ...; "
+    "where a value has an exactly equivalent const literal (built-in scalars, enums, input objects, lists, scalars "
+    "with default callbacks) the case additionally goes through the model and the spec verdict via that literal. "
+    "Also not modelled: wrapper types in interfaces/union-member/root positions, NonNull(NonNull(...))."
 )
 TECHNIQUE = "Lean 4 proof about an executable model + differential correspondence + spec oracle on the implementation"
 TRUSTED = [
@@ -42,7 +50,10 @@ TRUSTED = [
 ASSUMPTIONS = [
     "schema construction succeeded (unique type names, every reference resolves to a named type); "
     "references in implements / union member / root positions are named types",
-    "default values are const literals (what SDL produces); the deprecated default_value= only matters as 'has a default'",
+    "default values are const literals (what SDL produces) in the model; Python-value defaults are translated to the "
+    "equivalent literal when one exists (checks/c20.py _value_lit) and are otherwise covered by the implementation-side "
+    "oracles only; the deprecated default_value= only matters as 'has a default'",
+    "Float literals stay within the finite double range",
     "custom scalars use the library's default literal coercion (accept every const literal)",
     "an object literal with a repeated key denotes the map in which the last entry wins",
     "NonNull(NonNull(T)) (not expressible in SDL, not checked by validate.py) is outside RawSchema",
@@ -116,8 +127,47 @@ def build(case):
     kwargs = schema.to_kwargs()
     directives = list(kwargs["directives"])
     tm = schema.type_map
+    extra_types = {}
+
+    def resolve(type_sdl):
+        from graphql.language import ListTypeNode, NonNullTypeNode, parse_type
+
+        def go(node):
+            if isinstance(node, NonNullTypeNode):
+                inner = go(node.type)
+                return None if inner is None else GraphQLNonNull(inner)
+            if isinstance(node, ListTypeNode):
+                inner = go(node.type)
+                return None if inner is None else GraphQLList(inner)
+            return extra_types.get(node.name.value) or tm.get(node.name.value)
+
+        return go(parse_type(type_sdl))
+
     for tw in tweaks:
         op = tw[0]
+        if op == "add_value_default":
+            # an argument / input field / directive argument whose default is a Python value
+            from graphql import DirectiveLocation, GraphQLArgument, GraphQLDefaultInput, GraphQLInputField
+
+            _, kind, a, b, name, type_sdl, venc = tw[:7]
+            ty = resolve(type_sdl)
+            if ty is None:
+                continue
+            dflt = GraphQLDefaultInput(value=_decode_value(venc))
+            if kind == "arg":
+                t = tm.get(a)
+                if t is not None and hasattr(t, "fields") and b in t.fields and hasattr(t.fields[b], "args"):
+                    t.fields[b].args[name] = GraphQLArgument(ty, default=dflt)
+            elif kind == "input":
+                t = tm.get(a)
+                if t is not None and hasattr(t, "fields") and not hasattr(t, "interfaces") and hasattr(t, "is_one_of"):
+                    t.fields[name] = GraphQLInputField(ty, default=dflt)
+            else:
+                directives.append(GraphQLDirective(a, [DirectiveLocation.FIELD], args={name: GraphQLArgument(ty, default=dflt)}))
+            continue
+        if op == "raising_scalar":
+            extra_types[tw[1]] = _raising_scalar(tw[1], tw[2], tw[3])
+            continue
         if op == "nolocs":  # a directive without locations
             directives.append(GraphQLDirective(tw[1], []))
         elif op == "legacy_default":  # deprecated default_value= on an argument / input field
@@ -148,6 +198,44 @@ def build(case):
     kwargs["directives"] = directives
     kwargs["assume_valid"] = False
     return GraphQLSchema(**kwargs)
+
+
+def _decode_value(v):
+    if isinstance(v, dict):
+        if set(v) == {"__t"}:
+            return tuple(_decode_value(x) for x in v["__t"])
+        return {k: _decode_value(x) for k, x in v.items()}
+    if isinstance(v, list):
+        return [_decode_value(x) for x in v]
+    return v
+
+
+def _raising_scalar(name, parse_mode, serialize_mode):
+    """a custom scalar whose parse_value / serialize behave as told ("raise:<Exception>", ...)"""
+    import builtins
+
+    from graphql import GraphQLError, GraphQLScalarType
+    from graphql.pyutils import Undefined
+
+    def exc(mode):
+        cls = mode.split(":", 1)[1]
+        return GraphQLError if cls == "GraphQLError" else getattr(builtins, cls)
+
+    def parse_value(value):
+        if parse_mode == "accept":
+            return value
+        if parse_mode == "reject":
+            return Undefined
+        raise exc(parse_mode)("parse_value: " + repr(value)[:40])
+
+    def serialize(value):
+        if serialize_mode == "identity":
+            return value
+        if serialize_mode == "const":
+            return 0
+        raise exc(serialize_mode)("serialize: " + repr(value)[:40])
+
+    return GraphQLScalarType(name, serialize=serialize, parse_value=parse_value)
 
 
 def _tref(t):
@@ -195,8 +283,8 @@ class Unsupported(Exception):
     pass
 
 
-def _value_lit(v, type_):
-    from graphql.type import get_named_type, is_enum_type
+def _generic_lit(v):
+    import math
 
     if v is None:
         return "null"
@@ -205,10 +293,104 @@ def _value_lit(v, type_):
     if isinstance(v, int):
         return f"i {v}"
     if isinstance(v, float):
+        if not math.isfinite(v):
+            raise Unsupported("non-finite float")
         return "f"
     if isinstance(v, str):
-        return ("e " + v) if is_enum_type(get_named_type(type_)) and v.isidentifier() else "s"
+        return "s"
+    if isinstance(v, (list, tuple)):
+        return f"[ {len(v)} " + " ".join(_generic_lit(x) for x in v)
+    if isinstance(v, dict):
+        for k in v:
+            if not (isinstance(k, str) and k.isidentifier()):
+                raise Unsupported("dict key")
+        return "{ " + str(len(v)) + " " + " ".join(k + " " + _generic_lit(x) for k, x in v.items())
     raise Unsupported("value default")
+
+
+def _value_lit(v, type_):
+    """The const literal that `validate_input_literal` treats exactly as `validate_input_value`
+    treats the Python value `v` at `type_` (same accept/reject at every leaf, same structure), or
+    Unsupported when there is none (then the case is tied by the implementation-side oracles only)."""
+    import math
+
+    from graphql.type import (
+        GraphQLBoolean,
+        GraphQLFloat,
+        GraphQLID,
+        GraphQLInt,
+        GraphQLList,
+        GraphQLNonNull,
+        GraphQLString,
+        is_enum_type,
+        is_input_object_type,
+        is_scalar_type,
+    )
+
+    if isinstance(type_, GraphQLNonNull):
+        return _value_lit(v, type_.of_type)
+    if v is None:
+        return "null"
+    if isinstance(type_, GraphQLList):
+        if isinstance(v, (list, tuple)):
+            return f"[ {len(v)} " + " ".join(_value_lit(x, type_.of_type) for x in v)
+        if isinstance(v, (set, frozenset)) or (hasattr(v, "__iter__") and not isinstance(v, (str, bytes, dict))):
+            raise Unsupported("iterable")
+        return _value_lit(v, type_.of_type)
+    if is_input_object_type(type_):
+        if not isinstance(v, dict):
+            return _generic_lit(v)
+        parts = []
+        for k, x in v.items():
+            if not (isinstance(k, str) and k.isidentifier()):
+                raise Unsupported("dict key")
+            fd = type_.fields.get(k)
+            parts.append(k + " " + (_value_lit(x, fd.type) if fd is not None else _generic_lit(x)))
+        return "{ " + str(len(v)) + " " + " ".join(parts)
+    if is_enum_type(type_):
+        if isinstance(v, str):
+            return ("e " + v) if v.isidentifier() and v not in ("true", "false", "null") else "s"
+        return _generic_lit(v)
+    if is_scalar_type(type_):
+        isnum = isinstance(v, (int, float)) and not isinstance(v, bool)
+        integral = isnum and (isinstance(v, int) or (math.isfinite(v) and int(v) == v))
+        if type_ is GraphQLInt or type_ is GraphQLID:
+            if isnum:
+                return f"i {int(v)}" if integral else "b"  # "b": a literal both reject
+            return _generic_lit(v)
+        if type_ is GraphQLFloat:
+            if isinstance(v, float):
+                return "f" if math.isfinite(v) else "b"
+            if isnum:
+                if abs(v) >= 2**53:
+                    raise Unsupported("big int at Float")
+                return f"i {v}"
+            return _generic_lit(v)
+        if type_ is GraphQLString or type_ is GraphQLBoolean:
+            return _generic_lit(v) if not isinstance(v, float) or math.isfinite(v) else "f"
+        if _has_callbacks(type_):
+            raise Unsupported("custom scalar callbacks")
+        return "null" if False else _generic_custom(v)
+    return _generic_lit(v) if not isinstance(v, float) or math.isfinite(v) else "f"
+
+
+def _generic_custom(v):
+    """at a scalar with the default callbacks every value is accepted: any literal will do"""
+    try:
+        return _generic_lit(v)
+    except Unsupported:
+        return "s"
+
+
+def _has_callbacks(t):
+    from graphql.type import GraphQLScalarType
+
+    return (
+        t.parse_value is not GraphQLScalarType.parse_value
+        or t.coerce_input_value is not GraphQLScalarType.parse_value
+        or t.coerce_input_literal is not None
+        or getattr(t.parse_literal, "__func__", None) is not GraphQLScalarType.parse_literal
+    )
 
 
 def _ival(name, iv):
@@ -425,6 +607,33 @@ CORPUS = [
 ]
 
 
+_PT = "input Point { x: Int y: Int } input Box { corner: Point } enum E { A B } type Query { f: Int }"
+VALUE_CORPUS = [
+    # invalid Python-value defaults whose "uncoerce for a did-you-mean hint" step fails internally
+    ("value-unknown-key-arg", _PT, [["add_value_default", "arg", "Query", "f", "p", "Point", {"x": 1, "z": 2}]]),
+    ("value-unknown-key-input-field", _PT, [["add_value_default", "input", "Box", None, "c2", "Point", {"y": 0, "w": 0}]]),
+    ("value-unknown-key-dirarg", _PT, [["add_value_default", "dirarg", "vd", None, "x", "[Point!]", [{"x": 1}, {"q": None}]]]),
+    ("value-nested-unknown", _PT, [["add_value_default", "arg", "Query", "f", "b", "Box!", {"corner": {"x": "s", "zz": 1}}]]),
+    ("value-wrong-container", _PT, [["add_value_default", "arg", "Query", "f", "p", "Point", [1, 2]], ["add_value_default", "arg", "Query", "f", "l", "[Int!]!", {"a": 1}]]),
+    ("value-null-under-nonnull", _PT, [["add_value_default", "arg", "Query", "f", "l", "[Int!]", [1, None]], ["add_value_default", "input", "Point", None, "z", "Int!", None]]),
+    ("value-enum-unknown", _PT, [["add_value_default", "arg", "Query", "f", "e", "E", "NOPE"], ["add_value_default", "arg", "Query", "f", "e2", "[E]", ["A", 1, True]]]),
+    ("value-did-you-mean", _PT, [["add_value_default", "arg", "Query", "f", "i", "Int", "3"], ["add_value_default", "arg", "Query", "f", "i2", "[Int]", {"__t": [1, 2.0, 2.5]}]]),
+    ("value-valid", _PT, [["add_value_default", "arg", "Query", "f", "p", "Point", {"x": 1}], ["add_value_default", "arg", "Query", "f", "e", "E!", "B"], ["add_value_default", "arg", "Query", "f", "d", "ID", 3.0]]),
+] + [
+    (f"scalar-{pe}-{se}".replace(":", "-"), _PT, [["raising_scalar", "Rs", pe, se], ["add_value_default", "arg", "Query", "f", "n", t, v]])
+    for pe, se, t, v in [
+        ("raise:ValueError", "raise:KeyError", "Rs", 3),
+        ("raise:KeyError", "raise:ZeroDivisionError", "[Rs!]", [1, 2]),
+        ("reject", "raise:AttributeError", "Rs!", "x"),
+        ("raise:ZeroDivisionError", "identity", "Rs", {"a": 1}),
+        ("raise:GraphQLError", "raise:IndexError", "[Rs]", 5),
+        ("accept", "raise:KeyError", "Rs", 3),
+        ("raise:TypeError", "const", "Rs", 3),
+        ("raise:AttributeError", "raise:RuntimeError", "Rs", 3),
+    ]
+]
+
+
 def gen_cases(ctx):
     quick = ctx.tier == "quick"
     rng = ctx.sub_rng("c20")
@@ -433,6 +642,7 @@ def gen_cases(ctx):
         c = json.loads(f.read_text())
         cases.append({"origin": c.get("origin", "corpus:" + f.stem), "sdl": c["sdl"], "tweaks": c.get("tweaks")})
     cases += [{"origin": f"corpus:{n}", "sdl": sdl} for n, sdl in CORPUS]
+    cases += [{"origin": f"corpus:{n}", "sdl": sdl, "tweaks": tw} for n, sdl, tw in VALUE_CORPUS]
     n_valid = 26 if quick else 150
     if ctx.escalate:
         n_valid *= 2
@@ -459,6 +669,12 @@ def gen_cases(ctx):
                         break
         if rng.random() < 0.5:
             tws.append(["share_wrappers"])
+        # defaults given as Python values (GraphQLDefaultInput(value=...)), mostly invalid, and
+        # custom scalars whose callbacks raise
+        for j in range(5 if quick else 8):
+            vt = G.gen_value_tweaks(rng, d)
+            if vt:
+                cases.append({"origin": f"progv:{i}.{j}", "sdl": G.to_sdl(d), "tweaks": vt + (tws if j == 0 else [])})
         if tws:
             cases.append({"origin": f"prog:{i}", "sdl": G.to_sdl(d), "tweaks": tws})
             d3 = G.mutate(d, "required_deprecated", G.m_required_deprecated, rng)
@@ -475,7 +691,7 @@ def gen_cases(ctx):
                     d3 = G.mutate(d2, *G.MUTATIONS[b], rng)
                     if d3 is not None:
                         cases.append({"origin": f"mut2:{G.MUTATIONS[a][0]}+{G.MUTATIONS[b][0]}:{i}", "sdl": G.to_sdl(d3)})
-    n_rand = 1000 if quick else 15000
+    n_rand = 800 if quick else 15000
     if ctx.escalate:
         n_rand *= 2
     for i in range(n_rand):
